@@ -14,6 +14,7 @@
 package blobclient
 
 import (
+	"bytes"
 	"context"
 	"errors"
 	"fmt"
@@ -259,8 +260,27 @@ func (c *clusterClient) DownloadBlob(ctx context.Context, namespace string, d co
 
 	log.WithTraceContext(ctx).With("namespace", namespace, "digest", d.Hex()).Debug("Starting blob download from origin cluster")
 
+	// A transfer which breaks off midway has already written part of the blob
+	// to dst. Another origin's transfer must not be appended to it: either dst
+	// can be reset to where it was, or the download as a whole fails.
+	cw := &countingWriter{w: dst}
+	var partialErr error
 	err := Poll(c.resolver, c.defaultPollBackOff(), d, func(client Client) error {
-		return client.DownloadBlob(ctx, namespace, d, dst)
+		if partialErr != nil {
+			return partialErr
+		}
+		cw.n = 0
+		err := client.DownloadBlob(ctx, namespace, d, cw)
+		if err != nil && cw.n > 0 {
+			if buf, ok := dst.(*bytes.Buffer); ok && int64(buf.Len()) >= cw.n {
+				buf.Truncate(buf.Len() - int(cw.n))
+				return err
+			}
+			partialErr = fmt.Errorf(
+				"download interrupted after %d bytes were written to destination: %s", cw.n, err)
+			return partialErr
+		}
+		return err
 	})
 	if httputil.IsNotFound(err) {
 		span.SetStatus(codes.Error, "blob not found")
@@ -350,6 +370,18 @@ func (c *clusterClient) ReplicateToRemote(namespace string, d core.Digest, remot
 	return Poll(c.resolver, c.defaultPollBackOff(), d, func(client Client) error {
 		return client.ReplicateToRemote(namespace, d, remoteDNS)
 	})
+}
+
+// countingWriter counts the bytes written through it.
+type countingWriter struct {
+	w io.Writer
+	n int64
+}
+
+func (c *countingWriter) Write(p []byte) (int, error) {
+	n, err := c.w.Write(p)
+	c.n += int64(n)
+	return n, err
 }
 
 func shuffle(cs []Client) {
